@@ -31,6 +31,17 @@ Theorem C08_retry_ladder :
    Done (15625 + 15 * ECHO_TO) 0%nat ErrSendFailed].
 Proof. exact retry_ladder. Qed.
 
+(* "the wait doubling (up to 8x) after each unanswered attempt" holds ACROSS commands: five single-attempt commands 10 s apart, all unanswered *)
+Theorem C08_backoff_across_commands :
+  fst (fst (simulate (cmd_a 0 20000000) silent false 5000
+              [(0, ConnMade); (15625, Call 0%nat); (10015625, Call 1%nat); (20015625, Call 2%nat); (30015625, Call 3%nat); (40015625, Call 4%nat)])) =
+  [Write 15625 0%nat; Done (15625 + ECHO_TO) 0%nat ErrSendFailed;
+   Write 10015625 1%nat; Done (10015625 + 2 * ECHO_TO) 1%nat ErrSendFailed;
+   Write 20015625 2%nat; Done (20015625 + 4 * ECHO_TO) 2%nat ErrSendFailed;
+   Write 30015625 3%nat; Done (30015625 + 8 * ECHO_TO) 3%nat ErrSendFailed;
+   Write 40015625 4%nat; Done (40015625 + 8 * ECHO_TO) 4%nat ErrSendFailed].
+Proof. exact backoff_across_commands. Qed.
+
 (* "never transmitted after its caller was answered" is false of the code (KNOWN_FINDINGS.json) *)
 Theorem C08_tx_after_answer_refuted :
   exists evs, let tr := fst (fst (simulate (cmd_a 0 20000000) slow false 5000 evs)) in
